@@ -11,6 +11,7 @@ import biom.err as E
 from biom import Table
 from biom.exception import TableException
 
+from . import core
 from .core import enc_str, dec_str
 
 ID = 'C20'
@@ -24,8 +25,27 @@ RULE = ('random well-bracketed programs over seterr/seterrcall/geterrcall/errche
         "<= 7 instructions per level, 'all', unknown kinds/reactions, exits by exception) with the profile compared "
         'after every instruction, plus the 7x5 reaction table at constructor / filter / collapse call sites; '
         'non-trivial = a program that changes the profile at least once or a triggering reaction cell; distinct by case hash')
-TRUSTED = ['hand-written model coq/Model/Err.v tied to biom/err.py by this correspondence run',
+TRUSTED = ['translator tools/py2v (fail-closed, self-tested by tools/py2v/selftest.py) with its signature file '
+           'tools/py2v/sigs/err.json and the hand-written types coq/Model/ErrTypes.v; the generated model is also '
+           'tied to biom/err.py by this correspondence run',
            'extraction (ExtrOcamlBasic only) + ocaml/driver_tail.ml, cross-checked against vm_compute on a sample']
+_TRUSTED_BASE = list(TRUSTED)
+
+
+def regenerate():
+    """re-translate biom/err.py into coq/Gen/ErrGen.v; a refusal breaks the tie"""
+    import re
+    rc, out = core.sh([core.os.path.join(core.ROOT, 'tools', 'regen.sh'), 'err'], timeout=300)
+    del TRUSTED[:]
+    TRUSTED.extend(_TRUSTED_BASE)
+    if rc != 0:
+        msg = [ln for ln in out.split('\n') if 'REFUSED' in ln]
+        TRUSTED.append('translator REFUSED biom/err.py on this run; coq/Gen/ErrGen.v is stale')
+        raise core.Broken('translator rejected biom/err.py: %s' % (msg[0].split('REFUSED', 1)[1].strip() if msg else 'rc=%d' % rc), out[-3000:])
+    m = re.search(r'-> (\S+) (written|unchanged) \(source sha256 ([0-9a-f]+)\)', out)
+    TRUSTED.append('coq/Gen/ErrGen.v regenerated from biom/err.py by tools/py2v on this run (%s; sha256 of source %s)'
+                   % (m.group(2) if m else '?', m.group(3) if m else '?'))
+
 ASSUMPTIONS = ['warnings/stdout/callback capture observes what errcheck emits',
                'exceptions raised inside a block are caught directly outside that block']
 
